@@ -20,8 +20,9 @@
 (*        2^AccBits, measured by ticking a reset copy once.  kind/fl/fr =   *)
 (*        the exact ideal 2^AccBits*f/fs resp. 2^AccBits/(p*fs) from u128   *)
 (*        arithmetic on the f32 bit patterns: "num": fl + fr/2^16 (below    *)
-(*        2^30); "zero": argument <= 0 or NaN (f) resp. not a positive      *)
-(*        finite period; "sat": the ideal exceeds the 32-bit increment      *)
+(*        2^30); "zero": a frequency of 0 resp. an infinite period; "any":  *)
+(*        a negative or NaN argument (outside every documented range, no    *)
+(*        expectation); "sat": the ideal exceeds the 32-bit increment       *)
 (*        register (saturates); "huge": in between (only big is known)      *)
 (*  {"op":"sp","kind":"num"|"nonfinite","neg":b,"lo":n,"hi":n}  set_phase:  *)
 (*        lo = floor((2^AccBits - 1) * frac(|p|)), hi = ceil(2^AccBits *    *)
@@ -64,7 +65,8 @@ CeilDiv(x, d) == -((-x) \div d)
 
 \* increment in force (il, big) against the ideal; relative tolerance 2^-div
 IncTags(shift) ==
-  IF e.kind = "zero" THEN (IF e.il # 0 \/ e.big THEN {<<"C11", "increment-of-nonpositive">>} ELSE {})
+  IF e.kind = "any" THEN {}
+  ELSE IF e.kind = "zero" THEN (IF e.il # 0 \/ e.big THEN {<<"C11", "increment-of-nonpositive">>} ELSE {})
   ELSE IF e.kind = "sat" THEN (IF e.il # M - 1 \/ ~e.big THEN {<<"C11", "increment-saturation">>} ELSE {})
   ELSE IF e.kind = "huge" THEN (IF ~e.big THEN {<<"C11", "increment">>} ELSE {})
   ELSE LET eps16 == CeilDiv(e.fl + 1, shift) + 1
@@ -90,18 +92,22 @@ TTake ==
   /\ Advance(ReadTags("take-disturbs-phase")
              \cup (IF e.res # rolled THEN {<<"C11", "rollover-latch">>, <<"C02", "rollover-latch">>} ELSE {}))
 
+\* a negative or NaN argument leaves every documented range: nothing is reported for the rest of the run
 TSetInc(op, shift) ==
   /\ e.op = op
   /\ PA_SetInc(e.il + (IF e.big THEN M ELSE 0))
-  /\ Advance(ReadTags("setfreq-phase-jump") \cup IncTags(shift))
+  /\ IF e.kind = "any"
+       THEN l' = l + 1 /\ dead' = dead \cup {"ALL"}
+       ELSE Advance(ReadTags("setfreq-phase-jump") \cup IncTags(shift))
 
 TSetPhase ==
   /\ e.op = "sp"
   /\ PA_SetPhase(IF e.a >= 0 /\ e.a < M THEN e.a ELSE acc)
-  /\ Advance(   (IF e.a < 0 \/ e.a >= M THEN {<<"C11", "set-phase-range">>} ELSE {})
-           \cup (IF e.kind = "num" /\ (e.a < e.lo - SetPhaseTol \/ e.a > e.hi + SetPhaseTol)
-                   THEN {<<"C11", "set-phase">>} ELSE {})
-           \cup ReadTags("set-phase"))
+  /\ IF e.kind # "num"    \* a NaN or infinite phase is outside the documented range ("any finite value")
+       THEN l' = l + 1 /\ dead' = dead \cup {"ALL"}
+       ELSE Advance(   (IF e.a < 0 \/ e.a >= M THEN {<<"C11", "set-phase-range">>} ELSE {})
+                  \cup (IF e.a < e.lo - SetPhaseTol \/ e.a > e.hi + SetPhaseTol THEN {<<"C11", "set-phase">>} ELSE {})
+                  \cup ReadTags("set-phase"))
 
 TPanic ==
   /\ e.op = "panic"
